@@ -105,6 +105,9 @@ class SimLoop(asyncio.SelectorEventLoop):
 
     def _run_once(self):
         self.iterations += 1
+        if self.max_virtual is not None and self._vt - T0 > self.max_virtual:
+            self.max_virtual = None
+            raise VirtualBudgetExceeded(f'virtual time budget exceeded')
         if not self._ready:
             sched = self._scheduled
             while sched and sched[0]._cancelled:
